@@ -32,6 +32,8 @@ if rc: fail("codegen suite fails: " + o[-300:])
 democmd = "go test -count=1 ./..."
 if os.path.exists(demo + "/run_with_overlay.sh"):
     democmd = "go test -count=1 ./... ; ./run_with_overlay.sh"
+if os.path.exists(demo + "/run.sh"):
+    democmd = "sh ./run.sh"
 rc_with, o_with = run("go vet ./... ; " + democmd, demo, 900)
 run("git checkout -- . ; rm -f cmd/arcaflow-codegen/codegen", wt)
 rc_without, o_without = run(democmd, demo, 900)
